@@ -52,8 +52,10 @@ impl<'a> G<'a> {
         format!("a{}", self.alias_n)
     }
 
-    fn typename(&mut self) -> Sel {
+    fn typename(&mut self, sc: &mut Scope, rng: &mut Rng) -> Sel {
         let mut f = Field::leaf("__typename");
+        // the meta field takes directives like any other field (@skip / @include on it make it conditional)
+        f.dirs = self.exec_dirs(sc, rng, "FIELD");
         if self.o.unique_response_keys {
             f.alias = Some(nm(&self.alias()));
         }
@@ -196,7 +198,7 @@ impl<'a> G<'a> {
                 let composite = ix.is_composite(&base);
                 if composite && depth == 0 {
                     // cannot descend further: select __typename instead
-                    let t = self.typename();
+                    let t = self.typename(sc, rng);
                     items.push(t);
                     continue;
                 }
@@ -207,7 +209,7 @@ impl<'a> G<'a> {
                 let sels = if composite { Some(self.selset(sc, rng, &base, depth - 1, frag_limit)) } else { None };
                 items.push(Sel::Field(Field { alias, name: nm(&fd.name.s), args, args_p: P::none(), dirs, sels }));
             } else if r < 7 {
-                let t = self.typename();
+                let t = self.typename(sc, rng);
                 items.push(t);
             } else if r < 9 && depth > 0 {
                 // inline fragment
@@ -234,11 +236,11 @@ impl<'a> G<'a> {
                     let dirs = self.exec_dirs(sc, rng, "FRAGMENT_SPREAD");
                     items.push(Sel::Spread { p: P::none(), name: nm(&fr.name.s), dirs });
                 } else {
-                    let t = self.typename();
+                    let t = self.typename(sc, rng);
                     items.push(t);
                 }
             } else {
-                let t = self.typename();
+                let t = self.typename(sc, rng);
                 items.push(t);
             }
         }
